@@ -77,7 +77,7 @@ func runC09(c *Ctx) {
 		}
 		// the envelope read fills the envelope array
 		if IsCallTo(cv, "io.ReadFull") {
-			if dst, ok := cv.Call.Args[1].(*ssa.Slice); ok && types.Identical(dst.X.Type().(*types.Pointer).Elem(), ebT) {
+			if dst, ok := cv.Call.Args[1].(*ssa.Slice); ok && sliceIsOverArray(dst, ebT) {
 				continue
 			}
 		}
